@@ -1,4 +1,5 @@
 import Zstd.Props.C01
+import Zstd.Proofs.FrameDecoderNoFault
 /-
 C03 — no input can make decoding panic, corrupt memory or hang.
 
@@ -88,6 +89,69 @@ theorem decodeSeqLoop_ov_pos (llT ofT mlT : Spec.Fse.Table) :
                       · exact ih _ _ _ _ _ _ _ (cons_ok _ (C01.offsetValue_pos _ _)) h
       · cases h
     · cases h
+
+/-! ### the frame level (agentH): no operation of the public API ever returns a `Fault` -/
+
+/-- one block never faults, whatever the state and the source: the sequences handed to
+`execute_sequences` come from the sequence decoder, whose offset values are `2^code + extra ≥ 1` -/
+theorem decodeOneBlock_no_fault (st : FState) (s : Src) (f : Fault) : (decodeOneBlock st s).2 ≠ .fault f :=
+  decodeOneBlock_noFault st s f
+
+/-- `C03_full` holds: `decode_blocks` returns a value or an error, never a fault — every state (also
+states left behind by earlier errors), every source, every strategy -/
+theorem decodeBlocks_no_fault : C03_full :=
+  fun d s strat f => Decoder.decodeBlocks_noFault d s strat f
+
+/-- `reset`/`init` never faults -/
+theorem reset_no_fault (d : Decoder) (s : Src) (f : Fault) : (d.reset s).2 ≠ .fault f :=
+  Decoder.reset_noFault d s f
+
+/-- `decode_from_to` never faults: no block fault, and its two `panic!("Bug in library")` arms are
+unreachable (after a successful `init` the state is `Some`) -/
+theorem decodeFromTo_no_fault (d : Decoder) (s : Src) (n : Nat) (f : Fault) : (d.decodeFromTo s n).2 ≠ .fault f :=
+  Decoder.decodeFromTo_noFault d s n f
+
+/-- `decode_all` never faults -/
+theorem decodeAll_no_fault (d : Decoder) (s : Src) (room : Nat) (f : Fault) : (d.decodeAll s room).2 ≠ .fault f :=
+  decodeAllLoop_noFault _ d s room #[] f
+
+/-- `StreamingDecoder::read` never faults -/
+theorem streamingRead_no_fault (d : Decoder) (s : Src) (n : Nat) (f : Fault) : (streamingRead d s n).2 ≠ .fault f :=
+  streamingRead_noFault d s n f
+
+/-- the `assert!(seq_sum as usize == diff)` at the end of `execute_sequences` (not a `Fault` site of
+the model) cannot fire: on `Ok` the buffer grew by exactly the final `seq_sum`, and `seq_sum` never
+exceeds 131072, so the `u32` additions cannot overflow either -/
+theorem seq_sum_assert_never_fires (seqs : List Spec.Seq) (lits : List Nat) (h : Nat × Nat × Nat) (b : DBuf)
+    (hok : (executeSequences seqs lits h 0 b).2 = .ok ()) :
+    (executeSequences seqs lits h 0 b).1.1.content.size = b.content.size + finalSeqSum seqs lits 0 ∧
+    finalSeqSum seqs lits 0 ≤ 131072 := by
+  obtain ⟨x, hx, hs, hf⟩ := executeSequences_appends seqs lits h 0 b (Nat.zero_le _)
+  have := hf hok
+  have e : Gen.maxBlockSize = 131072 := by decide
+  rw [hx.size]; omega
+
+/-- `copyWithin` (the model of `repeat`'s copy loop) reads inside the buffer whenever
+`0 < offset ≤ len`: the `getD` default in its definition is never used on the paths the decoder
+takes (offset 0 is rejected as `ZeroOffset` before, larger offsets go to the dictionary path) -/
+theorem copyWithin_reads_in_bounds (n off : Nat) (c : Array Nat) (h0 : 0 < off) (h : off ≤ c.size) :
+    c.size - off < c.size ∧ (copyWithin n off c).size = c.size + n :=
+  ⟨by omega, copyWithin_size n off c⟩
+
+/-- every loop of the frame level terminates: more fuel than the source is long never changes a
+result (each iteration consumes ≥ 3 source bytes or returns) -/
+theorem frame_loops_terminate (strat : Strategy) (a c f : Nat) (st : FState) (d : Decoder) (s : Src)
+    (room n : Nat) (out : Array Nat) (h : s.length < f) :
+    decodeBlocksLoop strat a c f st s = decodeBlocksLoop strat a c (s.length + 1) st s ∧
+    decodeFromToLoop f st s = decodeFromToLoop (s.length + 1) st s ∧
+    streamingFill f d s n = streamingFill (s.length + 2) d s n ∧
+    decodeAllFrame f d s room out = decodeAllFrame (s.length + 2) d s room out ∧
+    decodeAllLoop f d s room out = decodeAllLoop (s.length + 1) d s room out :=
+  ⟨decodeBlocksLoop_fuel strat a c f _ st s h (Nat.lt_succ_self _),
+   decodeFromToLoop_fuel f _ st s h (Nat.lt_succ_self _),
+   streamingFill_fuel f _ d s n h (by omega),
+   decodeAllFrame_fuel f _ d s room out h (by omega),
+   decodeAllLoop_fuel f _ d s room out h (Nat.lt_succ_self _)⟩
 
 /-- non-vacuity: a sequence with offset value 4 on a buffer holding one byte executes without fault -/
 example : (executeSequences [⟨0, 3, 4⟩] [] (1, 4, 8) 0 { content := #[7] }).2.isOk = true := by decide
